@@ -325,7 +325,10 @@ theorem best_response (w : List Rat) (h : List Nat) (hl : w.length = h.length)
 /-- Best response, part 2: for ANY objective of the form `F h = K − c · Σ w_i h_i` with `c > 0` (the
     reduction identity of C07 gives `error + λ·γ` this form with `c = 1/n`, `w = signed weights`), a
     labeling has smaller weighted 0/1 error on the relabelled data iff it has smaller `F`; hence a
-    learner that minimises the weighted 0/1 error over a class minimises `F` over that class. -/
+    learner that minimises the weighted 0/1 error over a class minimises `F` over that class.
+    REVIEW R3: `hF` asks for the affine form on EVERY list of naturals; the real `error + λ·γ` has it only on 0/1
+    labelings with one label per row (`affine_everywhere_excludes_zero_one_error`), so this statement cannot be
+    instantiated with it — use `best_response_argmin_hard` (same conclusion, `hF` guarded). -/
 theorem best_response_argmin (w : List Rat) (K c : Rat) (hc : 0 < c) (F : List Nat → Rat)
     (hF : ∀ h, F h = K - c * dot w (toRat h))
     (h h' : List Nat) (hl : w.length = h.length) (hl' : w.length = h'.length)
@@ -586,7 +589,10 @@ theorem fit_spec (span : Bool) (cwOf : List Rat → List Rat) (ow : List Rat)
     rw [← hl]; simp only [List.map_map]; rfl
 
 /-- … hence (reduction identity of C07: `error + λ·γ = K − c·Σ wᵢhᵢ`, `c > 0`, `w` = the combined signed weights)
-    every trained predictor minimises `error + λ·γ` of its own multiplier over the class. -/
+    every trained predictor minimises `error + λ·γ` of its own multiplier over the class.
+    REVIEW R3: same remark as for `best_response_argmin` — the unguarded `hF` is not satisfiable by the real Lagrangian;
+    `fit_predictor_minimises_lagrangian_hard` is the guarded form and `C09.fit_predictor_minimises_real_lagrangian`
+    (C09X.lean) its instance for `Oracle.lagr` (ErrorRate objective + `λ·γ` of a parity moment). -/
 theorem fit_predictor_minimises_lagrangian (learner : List (Nat × Rat) → List Nat) (H : List Nat → Prop)
     (w : List Rat) (K c : Rat) (hc : 0 < c) (F : List Nat → Rat)
     (hF : ∀ h, F h = K - c * dot w (toRat h))
